@@ -154,6 +154,14 @@ func (c *Ctx) RuleSiblingRuleId() *Result {
 				used[u.group] = append(used[u.group], u.val)
 			}
 		}
+		// the text matched against the grammar is the argument / file name itself
+		if _, _, _, subj, ok := regexpCall(s.call); ok {
+			if tc, isCall := stripConv(subj).(*ssa.Call); isCall {
+				if f := staticCallee(&tc.Call); f != nil && (objPkgPath(f) == "strings" || objPkgPath(f) == "bytes") {
+					problems = append(problems, "the text matched against the argument grammar went through "+qualName(f)+" first: the set of accepted arguments is no longer the grammar of the statement (and what is cut off is guessed)")
+				}
+			}
+		}
 		if len(used[1]) == 0 {
 			problems = append(problems, "the rule id is not taken from group 1")
 		}
@@ -509,6 +517,8 @@ func (c *Ctx) RuleCompareVerdict() *Result {
 					case *ssa.Call:
 						if sf := staticFn(&x.Call); sf == nil || !c.P.IsRepoFn(sf) {
 							problems = append(problems, fmt.Sprintf("argument %d of the comparison at %s is transformed by %s before it is compared: the verdict is no longer byte equality of the stored operand and the generated regex", idx, c.P.InstrPos(e.Site), calleeLabel(&x.Call)))
+						} else if why := c.returnsTransformed(sf, 0); why != "" {
+							problems = append(problems, fmt.Sprintf("%s, whose result is compared, %s: the verdict is no longer byte equality of the stored operand and the generated regex", load.FnName(sf), why))
 						}
 					default:
 						problems = append(problems, fmt.Sprintf("argument %d of the comparison at %s is transformed before it is compared (%T)", idx, c.P.InstrPos(e.Site), a))
@@ -523,4 +533,44 @@ func (c *Ctx) RuleCompareVerdict() *Result {
 		})
 	}
 	return res
+}
+
+// returnsTransformed: does fn return (as its first result) a string that went
+// through a strings/bytes function instead of the value it obtained?
+func (c *Ctx) returnsTransformed(fn *ssa.Function, depth int) string {
+	if depth > 2 || len(fn.Blocks) == 0 {
+		return ""
+	}
+	why := ""
+	allInstrs(fn, func(in ssa.Instruction) {
+		r, ok := in.(*ssa.Return)
+		if !ok || len(r.Results) == 0 || why != "" {
+			return
+		}
+		var walk func(v ssa.Value, d int)
+		walk = func(v ssa.Value, d int) {
+			if d > 4 || why != "" {
+				return
+			}
+			switch x := stripConv(v).(type) {
+			case *ssa.Phi:
+				for _, e := range x.Edges {
+					walk(e, d+1)
+				}
+			case *ssa.Call:
+				f := staticCallee(&x.Call)
+				if f != nil && (objPkgPath(f) == "strings" || objPkgPath(f) == "bytes") {
+					why = "passes it through " + qualName(f)
+					return
+				}
+				if sf := staticFn(&x.Call); sf != nil && c.P.IsRepoFn(sf) {
+					if w := c.returnsTransformed(sf, depth+1); w != "" {
+						why = w
+					}
+				}
+			}
+		}
+		walk(r.Results[0], 0)
+	})
+	return why
 }
